@@ -168,6 +168,33 @@ Theorem interp_nd_bilinear : forall g0 g1 data x y i k f00 f01 f10 f11,
   = Some ((1 - s) * (1 - t) * f00 + (1 - s) * t * f01 + s * (1 - t) * f10 + s * t * f11).
 Proof. exact interp_nd_bilinear. Qed.
 
+(* interpolate_dataset_grid on a variable with dims (x, y): the two axis steps compose to the
+   bilinear value when all targets lie inside and the data are finite ... *)
+Theorem grid_composition_bilinear : forall xp yp m xs ys a b i k,
+  asc xp -> asc yp -> (i + 1 < length xp)%nat -> (k + 1 < length yp)%nat ->
+  (a < length xs)%nat -> (b < length ys)%nat ->
+  rnth xp i <= nth a xs 0 < rnth xp (i + 1) -> rnth yp k <= nth b ys 0 < rnth yp (k + 1) ->
+  (forall a', (a' < length xs)%nat ->
+     exists i', (i' + 1 < length xp)%nat /\ rnth xp i' <= nth a' xs 0 < rnth xp (i' + 1)) ->
+  (forall i', (i' < length xp)%nat -> all_some (nth i' m []) = true) ->
+  let s := tfrac xp (nth a xs 0) i in
+  let t := tfrac yp (nth b ys 0) k in
+  let f i' k' := oget (nth i' m []) k' in
+  nth a (nth b (interp_grid2 xp yp m xs ys false) []) None
+  = Some ((1 - t) * ((1 - s) * f i k + s * f (i + 1)%nat k)
+          + t * ((1 - s) * f i (k + 1)%nat + s * f (i + 1)%nat (k + 1)%nat)).
+Proof. exact interp_grid2_bilinear. Qed.
+
+(* ... but, as the code stands, ONE target of the first coordinate outside its grid makes every
+   output missing (the second step's NaN mask looks across all targets of the first step).
+   Stated so that the behaviour is on record; the harness replays it on the implementation. *)
+Theorem grid_outside_target_poisons : forall xp yp m xs ys nearest a0 a b,
+  asc xp -> (1 <= length xp)%nat -> (1 <= length yp)%nat ->
+  (a0 < length xs)%nat -> (nth a0 xs 0 < hd0 xp \/ last0 xp < nth a0 xs 0) ->
+  (a < length xs)%nat -> (b < length ys)%nat ->
+  nth a (nth b (interp_grid2 xp yp m xs ys nearest) []) None = None.
+Proof. exact interp_grid2_outside_poisons. Qed.
+
 (* 1D spectra: energy is interpolated linearly, moments are ENERGY-WEIGHTED; zero energy -> fill value *)
 Theorem spectrum_interp_energy_weighted : forall xp erows arows x i np j ext,
   asc xp -> (i + 1 < length xp)%nat -> rnth xp i <= x < rnth xp (i + 1) ->
